@@ -233,6 +233,27 @@ def api_built(rows, data_text):
         return {"leak": type(e).__name__, "msg": "CID built call by call: " + str(e)[:100]}
 
 
+def end_rule(cid_rows, data_text):
+    """a CID whose check rule is fine when the CID is read but not for the counts the data produce: whatever the rule does
+    at the end of the data is an interface error or a data error, in every on_error mode"""
+    out = {}
+    for mode in ("raise", "continue", "yield"):
+        try:
+            cid = interface.Cid()
+            cid.read("c10", [list(r) for r in cid_rows])
+            n = 0
+            for _ in cutplace.rows(cid, io.StringIO(data_text, newline=""), on_error=mode):
+                n += 1
+            out[mode] = "rows"
+        except errors.DataError as e:
+            out[mode] = type(e).__name__
+        except errors.InterfaceError:
+            out[mode] = "InterfaceError"
+        except Exception as e:  # noqa
+            return {"leak": type(e).__name__, "msg": "on_error=%s: %s" % (mode, str(e)[:100])}
+    return out
+
+
 def write_data(cid_rows, rows):
     """validio.Writer on a stream: rows either are written or refused with a DataError"""
     from cutplace import validio
@@ -330,6 +351,9 @@ def make_case(inp):
     if kind == "api":
         obs = api_built(inp["rows"], inp["data"])
         return {"coq": P("CNoModel", "ONone"), "obs": obs, "nontrivial": True, "tags": ["api", sorted(obs)[0]]}
+    if kind == "endrule":
+        obs = end_rule(inp["rows"], inp["data"])
+        return {"coq": P("CNoModel", "ONone"), "obs": obs, "nontrivial": True, "tags": ["endrule", sorted(obs)[0] if "leak" in obs else obs["raise"]]}
     if kind == "write":
         obs = write_data(DATA_CID[inp["cid"]], inp["rows"])
         return {"coq": P("CNoModel", "ONone"), "obs": obs, "nontrivial": True, "tags": ["write", inp["cid"], sorted(obs)[0]]}
@@ -352,6 +376,10 @@ def direct_oracle(inp, obs):
     if kind == "api":
         if "leak" in obs:
             return "%s (%s) after the calls %r" % (obs["leak"], obs["msg"], inp["rows"][-3:])
+        return None
+    if kind == "endrule":
+        if "leak" in obs:
+            return "%s (%s) at the end of the data under the rule %r" % (obs["leak"], obs["msg"], inp["rows"][-1][3])
         return None
     if kind == "write":
         if "leak" in obs:
@@ -454,6 +482,15 @@ def gen_inputs(tier, rnd):
                 row = list(good_row)
                 row[col] = v
                 yield {"kind": "write", "cid": cid_name, "rows": [row, good_row]}
+    # (c+) count rules that are fine for the count the CID is read with (0) and break for a count the data produce
+    two = [["D", "Format", "Delimited"], ["D", "Item delimiter", ";"], ["F", "a", "", "", "", "Text"], ["F", "b", "", "", "", "Text"]]
+    count_rules = ["b < 1000 // (count - %d)" % k for k in (1, 2, 3)] + ["b <= (10, 20, 30)[count]", "b < 5 if count < 2 else nope", "b < 3 if count != 2 else None",
+                   "b < [1, 2][count]", "b < {0: 1}[count]", "b < int('1' * (1 - count))", "b < 9 or count.nope", "b < (1).__truediv__(count - 1)", "b < len('abc'[count]) + 9"]
+    for rule in count_rules:
+        for k in (0, 1, 2, 3, 4):
+            text = "".join("r%d;v%d\n" % (i, i % max(k, 1)) for i in range(k + 1 if k else 0))
+            yield {"kind": "endrule", "rows": two + [["C", "at the end", "DistinctCount", rule]], "data": text}
+        yield {"kind": "cli", "cid": csv_text(two + [["C", "at the end", "DistinctCount", rule]]), "data": "x;v1\ny;v2\nz;v3\nu;v2\n"}
     # (c'') a CID built call by call, one call refused in between, the corrected call made afterwards
     base = BASES["delimited"]
     good_data = "a;b;c;d;e;f;g;h\n1;x;1.5;01.02.2003;abc;abc;k;\n2;y;2.5;02.02.2003;abc;abc;k;\n"
